@@ -1,2 +1,51 @@
-(* Properties/C06.v — placeholder while the proofs are being written *)
-From MP Require Import Common.Base Common.Tree Model.Json.
+(* Properties/C06.v — JSON save/load reproduces the tree exactly.
+   Only statements closed by [exact]; proofs are in Proofs/C06_*.v.
+   [serialize]/[load] = metapype_io._serialize/_from_dict, [objectify]/[legacy_load] =
+   mp_io.objectify/from_json, [upgrade] = utils/convert.py:to_20210209 (Model/Json.v);
+   [tree_ok], [ns_closed], [legacy_view] are the property's vocabulary (Spec/JsonSpec.v).
+   Equality of [ftree]s is equality of ids, names, child order, content, tail, attributes,
+   extras, prefix and namespace maps including key order, at every node. *)
+From MP Require Import Common.Base Common.Tree Model.Json Spec.JsonSpec
+  Proofs.C06_Roundtrip Proofs.C06_Examples.
+
+(** Saving and loading reproduces the tree exactly, for every tree whose namespace
+    prefixes include their parent's. *)
+Theorem C06_roundtrip :
+  forall t : ftree, tree_ok t -> ns_closed t -> load (serialize t) = Ok t.
+Proof. exact roundtrip. Qed.
+Print Assumptions C06_roundtrip.
+
+(** ... and re-serialising the loaded tree gives the identical JSON value (ordered keys,
+    which json.dumps maps injectively to text). *)
+Theorem C06_reserialize :
+  forall t : ftree, tree_ok t -> ns_closed t ->
+  exists t', load (serialize t) = Ok t' /\ serialize t' = serialize t.
+Proof. exact reserialize. Qed.
+Print Assumptions C06_reserialize.
+
+(** The legacy codec reproduces the fields it carries. *)
+Theorem C06_legacy :
+  forall t : ftree, tree_ok t -> legacy_load (objectify t) = Ok (legacy_view t).
+Proof. exact legacy_roundtrip. Qed.
+Print Assumptions C06_legacy.
+
+(** A legacy document upgraded by the bundled converter loads as the same tree with empty
+    namespace data. *)
+Theorem C06_upgrade :
+  forall t : ftree, tree_ok t ->
+  exists j, upgrade (objectify t) = Ok j /\ load j = Ok (legacy_view t).
+Proof. exact upgrade_roundtrip. Qed.
+Print Assumptions C06_upgrade.
+
+(** Non-vacuity: a three-level tree with namespaces (child lists the root's prefixes in
+    another order, grandchild rebinds one) satisfies the hypotheses. *)
+Theorem C06_nonvacuous :
+  tree_ok ex3 /\ ns_closed ex3 /\ theight ex3 = 3 /\ load (serialize ex3) = Ok ex3.
+Proof. exact ex3_nonvacuous. Qed.
+Print Assumptions C06_nonvacuous.
+
+(** The precondition is needed: outside it the loader's attach step rewrites bindings. *)
+Theorem C06_closed_needed :
+  tree_ok bad3 /\ ~ ns_closed bad3 /\ load (serialize bad3) = Ok bad3_loaded /\ bad3_loaded <> bad3.
+Proof. exact closed_needed. Qed.
+Print Assumptions C06_closed_needed.
